@@ -1,0 +1,5 @@
+//go:build !verif
+
+package parser
+
+func verifPoint(x interface{}, pt string, n int) {}
